@@ -134,6 +134,10 @@ MUTANTS = [
      "    import json as _json\n    for _k, _v in list(ds.attrs.items()):\n        if isinstance(_v, str) and _v.startswith('{'):\n"
      "            try:\n                ds.attrs[_k] = _json.loads(_v)\n            except ValueError:\n                pass\n\n"
      "    if load_to_mem:\n        ds.load()\n        ds.close()\n\n    return ds"),
+    # ---- eighth review round --------------------------------------------------------------
+    ("ignore-dims-string-split-into-characters", "C13", CR,
+     "    ignore_dims = ({ignore_dims} if isinstance(ignore_dims, str) else\n                   set(ignore_dims) if ignore_dims else set())",
+     "    ignore_dims = set(ignore_dims or ())"),
 ]
 
 # Equivalent in this environment (NOT caught, and cannot be: behaviour is unchanged):
